@@ -236,7 +236,10 @@ impl<F> Package<F> {
     /// Returns true if the package has an embedded binary stream with the
     /// given name.
     pub fn has_stream(&self, stream_name: &str) -> bool {
-        self.comp().is_stream(streamname::encode(stream_name, false))
+        // (A name that isn't valid could encode to the name of a table's
+        // stream or of the string pool.)
+        streamname::is_valid(stream_name, false)
+            && self.comp().is_stream(streamname::encode(stream_name, false))
     }
 
     /// Returns an iterator over the embedded binary streams in this package.
